@@ -18,7 +18,7 @@ from ..dataflow import dataflow_of, MUTATING_METHODS
 from ..model import AnalysisError, Cls, Func, norm_stmt, parent
 from ..pattern import C, G, V, call, match, norm
 from ..terms import Term, alts, contains, ends_with_attrs, ifexp_to_phi, root_of, show, subterms
-from ..util import calls_in, nodes_in
+from ..util import calls_in, deep_subterms, nodes_in, value_closure
 
 P = "C06"
 MOD = "ropt.ensemble_evaluator._evaluator_results"
@@ -175,21 +175,25 @@ def c06_1(ctx: Ctx) -> RuleResult:
             Rr = ll[0][1] if exp_r else None
             heads = tails = 0
             bad = []
-            for s in nodes_in(f, ast.Subscript):
-                if not isinstance(s.ctx, ast.Load):
-                    continue
-                st = X.at(f, s)
-                if st[0] != "sub" or not contains(st[1], lambda y: y[0] == "attr" and y[2] in ("objectives", "constraints")) and not contains(st[1], lambda y: y[0] == "iter"):
-                    continue
-                idx = st[2][1][0] if st[2][0] == "tuple" else st[2]
-                if idx[0] != "slice":
-                    continue
-                if idx[1] == C(None) and Rr is not None and norm(idx[2]) == Rr:
-                    heads += 1
-                elif idx[2] == C(None) and Rr is not None and norm(idx[1]) == Rr:
-                    tails += 1
-                else:
-                    bad.append(s)
+            for g_ in region(ctx, f):
+                for s in nodes_in(g_, ast.Subscript):
+                    if not isinstance(s.ctx, ast.Load):
+                        continue
+                    st = X.at(g_, s)
+                    if st[0] != "sub":
+                        continue
+                    srcs = [y for _h, y in deep_subterms(ctx, g_, st[1], 3)] if g_ is not f else list(subterms(st[1]))
+                    if not any(y[0] == "attr" and y[2] in ("objectives", "constraints") for y in srcs) and not any(y[0] == "iter" for y in srcs):
+                        continue
+                    idx = st[2][1][0] if st[2][0] == "tuple" else st[2]
+                    if idx[0] != "slice":
+                        continue
+                    if idx[1] == C(None) and Rr is not None and _anon(norm(idx[2])) == _anon(Rr):
+                        heads += 1
+                    elif idx[2] == C(None) and Rr is not None and _anon(norm(idx[1])) == _anon(Rr):
+                        tails += 1
+                    else:
+                        bad.append(s)
             ok = heads >= 2 and tails >= 2 and not bad
             res.add(f, c, "returned rows are split at R: [:R] are the function values, [R:] the perturbed values", ok,
                     "" if ok else f"split points are not [:R] / [R:] ({heads} heads, {tails} tails, {len(bad)} other)", construct=f"{f.name}: split of results")
@@ -198,6 +202,29 @@ def c06_1(ctx: Ctx) -> RuleResult:
             res.add(f, c, "row layout is one of the three request layouts", False, f"layout {_fmt(rl)}", construct=f"{f.name}: layout kind")
     res.floor = 7
     return res
+
+
+def region(ctx: Ctx, f: Func) -> list[Func]:
+    """The builder and the private functions of its module it hands its data to (a builder may be
+    split into several functions)."""
+    out = [f]
+    for g in ctx.cg.reachable([f], include_nested_values=False):
+        if g is not f and g.cls is None and g.module is f.module and g.name.startswith("_") and g not in out and not _is_builder(ctx, g):
+            out.append(g)
+    return out
+
+
+def _is_builder(ctx: Ctx, g: Func) -> bool:
+    return any(g is b for b, _c in builders(ctx))
+
+
+def _anon(t):
+    """Terms modulo the function a parameter belongs to (the same value seen from a helper)."""
+    if not isinstance(t, tuple):
+        return t
+    if t and t[0] == "param" and len(t) == 3:
+        return ("param", "*", t[2])
+    return tuple(_anon(x) for x in t)
 
 
 def _same_dim(a: Term, b: Term) -> bool:
@@ -276,20 +303,22 @@ def c06_2(ctx: Ctx) -> RuleResult:
         # the guard: transforms is not None and transforms.variables
         # outputs: what the result containers receive
         sinks = []
-        for cl in calls_in(f):
-            ft = X.at(f, cl.func)
-            if ft[0] == "global" and ft[1] in ctx.repo.classes and ctx.repo.classes[ft[1]].module.name == MOD:
-                sinks.append(X.at(f, cl))
+        for g_ in region(ctx, f):
+            for cl in calls_in(g_):
+                ft = X.at(g_, cl.func)
+                if ft[0] == "global" and ft[1] in ctx.repo.classes and ctx.repo.classes[ft[1]].module.name == MOD:
+                    sinks.append((g_, X.at(g_, cl)))
         for fld, trn in (("objectives", "objectives"), ("constraints", "nonlinear_constraints")):
             vals = []
-            for st in sinks:
+            for g_, st in sinks:
                 for k, v in st[3]:
                     if k in (fld, f"perturbed_{fld}"):
-                        vals.append(v)
+                        vals.append((g_, v))
             ok = bool(vals)
             why = "" if ok else f"no result container receives the {fld}"
-            for v in vals:
-                tos = [x for x in ctx.X.closure(v) if x[0] == "call" and x[1][0] == "attr" and x[1][2] == "to_optimizer"]
+            for g_, v in vals:
+                cl_ = list(value_closure(ctx, v)) if g_ is f else [y for _h, y in deep_subterms(ctx, g_, v, 3)]
+                tos = [x for x in cl_ if x[0] == "call" and x[1][0] == "attr" and x[1][2] == "to_optimizer"]
                 good = [x for x in tos if ends_with_attrs(x[1][1], trn) and x[2] and contains(x[2][0], lambda y: y[0] == "attr" and y[2] == fld and y[1] == t)]
                 if not good or len(good) != len(tos):
                     ok = False
